@@ -1413,7 +1413,8 @@ asn1c_lang_C_type_SIMPLE_TYPE(arg_t *arg) {
 		INDENT(-1);
 		OUT("}\n");
 		OUT("\n");
-	} else if(arg->flags & A1C_NO_CONSTRAINTS) {
+	} else {
+		/* No checking code; the PER character maps are needed anyway */
 		asn1c_emit_PER_character_map_tables(arg);
 	}
 
